@@ -1362,6 +1362,11 @@ static int cfg_parse_internal(cfg_t *cfg, int level, int force_state, cfg_opt_t 
 				goto error;
 			}
 
+			if (level > 0 && !force_opt) {
+				cfg_error(cfg, _("missing closing brace for section '%s'"), cfg->name);
+				goto error;
+			}
+
 			if (opt && is_set(CFGF_DEPRECATED, opt->flags))
 				cfg_handle_deprecated(cfg, opt);
 
